@@ -1201,12 +1201,7 @@ func check(c *core.Ctx, cs c11Case) (bucket string, nontrivial bool) {
 			pathsOK = false
 		}
 		if n != int64(len(perSrc[i])) {
-			if int64(len(perSrc[i])) > maxRows || rg.NumRows() > maxRows {
-				// the row path split the source: WriteRowGroup returns the rows of the last output row group (reported to the main session, not part of the statement)
-				lastGroupReturns++
-			} else {
-				c.Violation("rows-written-count", fmt.Sprintf("%s: WriteRowGroup returned %d, the source delivers %d rows", bucket, n, len(perSrc[i])), cs)
-			}
+			c.Violation("rows-written-count", fmt.Sprintf("%s: WriteRowGroup returned %d, the source delivers %d rows (paths %v)", bucket, n, len(perSrc[i]), implPaths), cs)
 		}
 	}
 	setSwitches("")
@@ -1684,7 +1679,7 @@ func checkBatches(c *core.Ctx, cs c11Case) bool {
 }
 
 var vmBatches []string
-var lastGroupReturns, malformedSourceRows int
+var malformedSourceRows int
 var vmPlans []string
 
 // ---- running ----
@@ -1823,9 +1818,6 @@ func run(c *core.Ctx) {
 		runBatches(c, cs)
 	}
 
-	if lastGroupReturns > 0 {
-		c.Note("WriteRowGroup returned the row count of the last output row group instead of the rows written in %d calls where the row path split the source at MaxRowsPerRowGroup (reported to the main session; outside the statement)", lastGroupReturns)
-	}
 	if malformedSourceRows > 0 {
 		c.Note("%d conversion cases skipped: ConvertRowGroup(...).Rows() delivers rows that are malformed for the target schema when an optional non-repeated column is added next to a repeated sibling (C12's domain; reported to the main session)", malformedSourceRows)
 	}
